@@ -98,8 +98,16 @@ def header(rng, op=None):
         if rng.random() < 0.5:
             h[off:off + 4] = ip4(rng)
     h[28:34] = rb(rng, 6)
-    if rng.random() < 0.2:
+    q = rng.random()
+    if q < 0.2:
         h[44:44 + 8] = b"bng-test"
+    elif q < 0.6:
+        # every byte of the fixed header is something a rewriter must preserve: chaddr padding, sname, file, htype/hlen too
+        h[34:44] = rb(rng, 10)
+        h[44:108] = rb(rng, 64)
+        h[108:236] = rb(rng, 128)
+        if rng.random() < 0.3:
+            h[1], h[2] = rng.randrange(256), rng.choice([6, 16, 0, 255])
     return bytes(h) + bytes([99, 130, 83, 99])
 
 
@@ -882,7 +890,8 @@ def gen_solicit6(rng, n):
         for _ in range(npd):
             cs, ci_, cm = rng.choice(CIDR6)
             pd += [_s(cs) + "/" + ("nil" if ci_ is None else hx(ci_) + ":" + hx(cm)), str(rng.choice(lt)), str(rng.choice(lt))]
-        cases.append(" ".join(["solicit6", hx(rb(rng, 14)), hx(cmsg), addr, pfx, str(ones), str(len(cd))] + cd +
+        relay = "nil" if rng.random() < 0.6 else "%d,%s,%s,%s" % (rng.choice([0, 1, 7, 255]), ip6tok2(rng, 0.1), ip6tok2(rng, 0.1), hx(rb(rng, rng.choice([0, 4, 9]))))
+        cases.append(" ".join(["solicit6", hx(rb(rng, 14)), hx(cmsg), relay, addr, pfx, str(ones), str(len(cd))] + cd +
                               [str(rng.choice(lt)), str(rng.choice(lt)), str(len(pdns))] + pdns + [str(nia)] + ia + [str(npd)] + pd))
     return cases
 
@@ -935,7 +944,8 @@ def gen_multipool(rng):
                           ([ia3, ia1], bytes.fromhex("20010db80001") + bytes(9) + b"\x07"), ([ia2, ia3, ia1], bytes.fromhex("20010db80001") + bytes(9) + b"\x08")):
             for pds, pfx in (([pd1, pd2], bytes.fromhex("fd00aa") + bytes(13)), ([pd2, pd1], bytes.fromhex("20010db8000100ab") + bytes(8))):
                 for ppref, pvalid in (("0", "0"), ("5000", "6000")):
-                    cases.append(" ".join(["solicit6", "000300010a0b0c0d0e0f", hx(msg), hx(addr), hx(pfx), "56", "0", ppref, pvalid, "0", str(len(ias))] +
+                    relay = "nil" if ppref == "0" else "3,%s,%s,%s" % (hx(bytes.fromhex("20010db8") + bytes(11) + b"\x01"), hx(bytes.fromhex("fe80") + bytes(13) + b"\x02"), hx(b"ifX"))
+                    cases.append(" ".join(["solicit6", "000300010a0b0c0d0e0f", hx(msg), relay, hx(addr), hx(pfx), "56", "0", ppref, pvalid, "0", str(len(ias))] +
                                           [x for pl in ias for x in pl] + [str(len(pds))] + [x for pl in pds for x in pl]))
     return cases
 
@@ -1345,6 +1355,14 @@ def distribution(cases, impl):
                             inc("lt6_ia_inside_ia")
                         j += 4 + l2
                 i += 4 + l
+        if op == "solicit6":
+            inc("solicit6_relayed" if t[3] != "nil" else "solicit6_direct")
+            if "retry=same" in o:
+                inc("solicit6_retry_same_answer")
+        if op in ("o82ins", "o82strip", "setu32", "setip", "proxy", "giaddr", "hops", "relay4", "relayreply4", "proxyreply4"):
+            pk = unhx(t[-1])
+            if len(pk) >= 236 and any(pk[108:236]):
+                inc("v4_header_with_nonzero_file_field")
         if op in ("ser6", "resp6"):
             ex, k = [], len(t) - 1
             while k > 0 and t[k].count(",") == 1 and t[k].split(",")[0].isdigit() and t[k - 1] != "nil" and not (t[k - 1].isdigit() and int(t[k - 1]) == len(ex)):
